@@ -11,7 +11,7 @@ Exit status: 0 = property held on everything explored (KNOWN-FINDING lines possi
 Every harness binary is rebuilt from /repo's current working tree; binaries are cached under
 /verif/build/<target>-<content hash of /repo/include + harness sources + flags>.
 """
-import fcntl, hashlib, json, os, shutil, subprocess, sys, time
+import fcntl, hashlib, json, os, re, shutil, subprocess, sys, time
 from concurrent.futures import ThreadPoolExecutor
 
 VERIF = os.path.dirname(os.path.abspath(__file__))
@@ -238,18 +238,24 @@ def run_check(prop, tier, seed):
     cov["rule"] = " || ".join(rules)
     if capped:
         cov["caps_hit"] = capped
-    known = [k for k in load_known() if k.get("property") == prop]
-    findings = {k["sig"]: k for k in known if k.get("status") == "finding"}
+    findings = {k["sig"]: k for k in load_known() if k.get("status") == "finding"}
     new, listed, other_props = [], [], []
     for v, job, cmd in violations:
         sig = v["sig"]
         if sig.startswith("HARNESS:"):
             harness_errors.append("%s: %s" % (sig, v["detail"]))
-        elif not sig.startswith(prop + ":"):
-            other_props.append(sig)      # a monitor of another property fired; that property's own check reports it
-        elif sig in findings:
+            continue
+        if not sig.startswith(prop + ":") and (sig.startswith("C19:process-death:") or sig.startswith("C19:livelock:")) and not prop.startswith("C19"):
+            # the engine's generic crash / hang detector fired in an execution explored for this property:
+            # an execution that dies or never goes quiescent cannot satisfy it
+            v = dict(v); v["sig"] = sig = prop + ":execution-" + sig[4:]
+        if sig in findings:
             listed.append((v, findings[sig]))
         else:
+            # monitors of other properties run in this property's scenarios too (wire well-formedness, id discipline,
+            # completion discipline ...); those scenarios are not part of the other property's own set, so a signal seen
+            # only here is reported here, under the property whose oracle fired
+            if not sig.startswith(prop + ":"): other_props.append(sig)
             new.append((v, job, cmd))
     if other_props:
         cov["other_property_signals"] = sorted(set(other_props))[:20]
@@ -265,15 +271,16 @@ def run_check(prop, tier, seed):
         json.dump(evidence, f, indent=1)
     shutil.rmtree(outdir, ignore_errors=True)
     for v, k in listed:
-        print("KNOWN-FINDING: property=%s %s [%s] (seen %s times)" % (prop, k.get("what", v["detail"]), v["sig"], v.get("count", 1)))
+        print("KNOWN-FINDING: property=%s %s [%s] (seen %s times)" % (k.get("property", prop), k.get("what", v["detail"]), v["sig"], v.get("count", 1)))
     if harness_errors:
         for h in harness_errors[:5]:
             print("HARNESS-ERROR property=%s %s" % (prop, h), file=sys.stderr)
         return 2
     if new:
         for v, job, cmd in new:
-            path = write_replay(prop, v, job, cmd)
-            print("VIOLATION property=%s replay=%s" % (prop, path))
+            vprop = v["sig"].split(":")[0] if re.match(r"^C\d\d:", v["sig"]) else prop
+            path = write_replay(vprop, v, job, cmd)
+            print("VIOLATION property=%s replay=%s" % (vprop, path))
             print("  %s: %s (x%s)" % (v["sig"], v["detail"], v.get("count", 1)))
         return 1
     print("OK property=%s tier=%s evaluations=%d states=%d transitions=%d exhaustive=%s wall=%.1fs%s" % (
